@@ -567,6 +567,23 @@ func checkFieldBytes(p *Prog, r *Report, rp string) {
 				if cc, ok := ref.(*ssa.Call); ok && calleeName(&cc.Call) == "pkg/entities.DecodeAndCreateInfoElementWithValue" && cc.Call.Args[1] == ssa.Value(c) {
 					okUse = true
 				}
+				// handed back by a helper that was spliced in place: merged with the nil results of its error exits
+				if ph, ok := ref.(*ssa.Phi); ok {
+					only := true
+					for _, lf := range phiLeaves(ph, 3) {
+						if k, isC := lf.(*ssa.Const); isC && k.IsNil() {
+							continue
+						}
+						if lf != ssa.Value(c) {
+							only = false
+						}
+					}
+					for _, r2 := range refs(ph) {
+						if cc, ok := r2.(*ssa.Call); ok && only && calleeName(&cc.Call) == "pkg/entities.DecodeAndCreateInfoElementWithValue" && cc.Call.Args[1] == ssa.Value(ph) {
+							okUse = true
+						}
+					}
+				}
 			}
 			// the guard in front of it must accept a field that exactly fills the rest of the set
 			buf, nn := c.Call.Args[0], c.Call.Args[1]
